@@ -17,10 +17,41 @@ import (
 
 // One state of MCGoEnc: a model of a Go value with the bytes GoEnc.tla says Marshal must write.
 type goencLine struct {
-	Fam string                 `json:"fam"`
-	G   map[string]interface{} `json:"g"`
-	Esc []int                  `json:"esc"`
-	Raw []int                  `json:"raw"`
+	Fam    string                 `json:"fam"`
+	G      map[string]interface{} `json:"g"`
+	Esc    []int                  `json:"esc"`
+	Raw    []int                  `json:"raw"`
+	Fails  bool                   `json:"fails"`  // GoEnc!GoFails: Marshal returns an error
+	Custom bool                   `json:"custom"` // the value holds a type with marshalling methods
+	DC     bool                   `json:"dc"`     // GoEnc!GoUnspecified: only "returns without panicking" is checked
+}
+
+// types with marshalling methods (GoEnc.tla: marsh, textm, redir, trust)
+type vMarsh struct {
+	Text string
+	Fail bool
+}
+
+func (m vMarsh) MarshalJSON() ([]byte, error) {
+	if m.Fail {
+		return nil, fmt.Errorf("vMarsh fails")
+	}
+	return []byte(m.Text), nil
+}
+
+type vText struct{ Text string }
+
+func (t vText) MarshalText() ([]byte, error) { return []byte(t.Text), nil }
+
+type vRedir struct{ V interface{} }
+
+func (r vRedir) RedirectMarshalJSON() (interface{}, error) { return r.V, nil }
+
+type vTrust struct{ B string }
+
+func (t vTrust) TrustMarshalJSON(buf *bytes.Buffer) error {
+	buf.WriteString(t.B)
+	return nil
 }
 
 var ifaceType = reflect.TypeOf((*interface{})(nil)).Elem()
@@ -48,6 +79,58 @@ func buildGo(g map[string]interface{}) (reflect.Value, error) {
 		return reflect.ValueOf(f), err
 	case "str":
 		return reflect.ValueOf(string(wireBytes(g["bytes"]))), nil
+	case "number":
+		return reflect.ValueOf(codec.Number(string(wireBytes(g["lit"])))), nil
+	case "marsh":
+		return reflect.ValueOf(vMarsh{Text: string(wireBytes(g["text"])), Fail: g["fail"].(bool)}), nil
+	case "textm":
+		return reflect.ValueOf(vText{Text: string(wireBytes(g["text"]))}), nil
+	case "trust":
+		return reflect.ValueOf(vTrust{B: string(wireBytes(g["b"]))}), nil
+	case "redir":
+		v, err := buildGo(g["v"].(map[string]interface{}))
+		if err != nil {
+			return v, err
+		}
+		return reflect.ValueOf(vRedir{V: iface(v)}), nil
+	case "tslice", "tmap":
+		z, err := buildGo(g["z"].(map[string]interface{}))
+		if err != nil {
+			return z, err
+		}
+		et := z.Type()
+		if g["z"].(map[string]interface{})["g"] == "nil" {
+			et = ifaceType
+		}
+		if g["g"] == "tslice" {
+			st := reflect.SliceOf(et)
+			if g["nil"].(bool) {
+				return reflect.Zero(st), nil
+			}
+			sl := reflect.MakeSlice(st, 0, 4)
+			for _, e := range g["e"].([]interface{}) {
+				v, err := buildGo(e.(map[string]interface{}))
+				if err != nil {
+					return v, err
+				}
+				sl = reflect.Append(sl, v)
+			}
+			return sl, nil
+		}
+		mt := reflect.MapOf(reflect.TypeOf(""), et)
+		if g["nil"].(bool) {
+			return reflect.Zero(mt), nil
+		}
+		m := reflect.MakeMap(mt)
+		for _, e := range g["m"].([]interface{}) {
+			kv := e.(map[string]interface{})
+			v, err := buildGo(kv["v"].(map[string]interface{}))
+			if err != nil {
+				return v, err
+			}
+			m.SetMapIndex(reflect.ValueOf(string(wireBytes(kv["k"]))), v)
+		}
+		return m, nil
 	case "slice":
 		if g["nil"].(bool) {
 			return reflect.ValueOf([]interface{}(nil)), nil
@@ -144,6 +227,31 @@ func buildGo(g map[string]interface{}) (reflect.Value, error) {
 	return reflect.Value{}, fmt.Errorf("unknown Go value kind %v", g["g"])
 }
 
+// hasForkOnly: the model holds a RedirectMarshaler or TrustMarshaler (which encoding/json would encode as a struct)
+func hasForkOnly(g interface{}) bool {
+	switch x := g.(type) {
+	case map[string]interface{}:
+		if x["g"] == "redir" || x["g"] == "trust" || x["g"] == "number" { // (and the fork's Number is a type of its own)
+			return true
+		}
+		for k, v := range x {
+			if k == "z" {
+				continue
+			}
+			if hasForkOnly(v) {
+				return true
+			}
+		}
+	case []interface{}:
+		for _, v := range x {
+			if hasForkOnly(v) {
+				return true
+			}
+		}
+	}
+	return false
+}
+
 func iface(v reflect.Value) interface{} {
 	if v.Kind() == reflect.Interface && v.IsNil() {
 		return nil
@@ -179,10 +287,27 @@ func (e *engine) checkGoEncLine(worker int, raw []byte) error {
 			want []byte
 		}{{true, toBytes(ln.Esc)}, {false, toBytes(ln.Raw)}} {
 			out, err := codec.MarshalEscaped(x, c.esc)
+			if ln.DC {
+				continue
+			}
+			if ln.Fails {
+				if err == nil {
+					e.rep.Report(viol("goenc-error", "Marshal succeeds although a MarshalJSON method fails or returns ill-formed text (GoEnc!GoFails)",
+						map[string]interface{}{"api": "MarshalEscaped", "esc": c.esc, "got": string(out), "type": fmt.Sprintf("%T", x)}))
+					return
+				}
+				if _, serr := stdjson.Marshal(x); serr == nil && !hasForkOnly(ln.G) {
+					e.rep.Report(viol("std-diff", "Marshal fails where encoding/json succeeds", map[string]interface{}{"api": "Marshal", "type": fmt.Sprintf("%T", x)}))
+				}
+				continue
+			}
 			if err != nil || !bytes.Equal(out, c.want) {
 				e.rep.Report(viol("goenc-bytes", "Marshal of a Go value differs from the encoding rules (GoEnc.tla)",
 					map[string]interface{}{"api": "MarshalEscaped", "esc": c.esc, "got": string(out), "want": string(c.want), "err": errString(err), "type": fmt.Sprintf("%T", x)}))
 				return
+			}
+			if hasForkOnly(ln.G) {
+				continue // encoding/json does not know RedirectMarshaler / TrustMarshaler
 			}
 			// the standard library on the same value
 			var sb bytes.Buffer
@@ -197,7 +322,7 @@ func (e *engine) checkGoEncLine(worker int, raw []byte) error {
 			}
 		}
 		// decode what was written back into a fresh value of the same type: encoding again gives the same bytes
-		if v.Kind() == reflect.Struct || v.Kind() == reflect.Map || v.Kind() == reflect.Slice {
+		if !ln.Custom && !ln.Fails && !hasForkOnly(ln.G) && (v.Kind() == reflect.Struct || v.Kind() == reflect.Map || v.Kind() == reflect.Slice) {
 			p := reflect.New(v.Type())
 			text := toBytes(ln.Raw)
 			if err := codec.Unmarshal(text, p.Interface()); err != nil {
